@@ -85,12 +85,12 @@ func provenances() []provenance {
 	return []provenance{
 		{"direct-push", op()},
 		{"DUP", op(0x76)},
-		{"2DUP", op(0x76, 0x6e)},           // V V V V
-		{"3DUP", op(0x76, 0x76, 0x6f)},     // six copies
-		{"OVER", op(0x51, 0x78)},                   // V 1 -> V 1 V'
+		{"2DUP", op(0x76, 0x6e)},                    // V V V V
+		{"3DUP", op(0x76, 0x76, 0x6f)},              // six copies
+		{"OVER", op(0x51, 0x78)},                    // V 1 -> V 1 V'
 		{"2OVER", op(0x51, 0x51, 0x51, 0x70, 0x75)}, // V 1 1 1 -> V 1 1 1 V' 1 -> drop
-		{"PICK", op(0x51, 0x51, 0x79)},             // V 1 <1> PICK -> V 1 V'
-		{"TUCK", op(0x51, 0x7c, 0x7d)},             // 1 V -> V' 1 V
+		{"PICK", op(0x51, 0x51, 0x79)},              // V 1 <1> PICK -> V 1 V'
+		{"TUCK", op(0x51, 0x7c, 0x7d)},              // 1 V -> V' 1 V
 		{"IFDUP", op(0x73)},
 		{"SPLIT-right", func(v []byte) []byte { return append(minimalPush(scriptref.NumEncode(bigInt(int64(len(v)/2)))), 0x7f) }},
 		{"SPLIT-left", func(v []byte) []byte {
